@@ -6,6 +6,8 @@ from analysis.facts import norm_path
 from analysis.sym import sym, show_in, nosite, peel, core, walk, ret_values, args_of, guards_at, atoms_at, \
     variant_facts_at, cmp_facts_at, init_value, edge_guards, symbolizer, simplify, loop_source, defs_of, var_defs, agg_field
 from analysis.pat import match, Call, Cap, ANY, Pred, Const, has, chain_names, chain
+from analysis.seq import seq_of, seq_of_var, ITEM
+from analysis.alts import value_alts
 from rules.common import closure_of, closures_in, body_for, BYTE, CHAR, narrowing_casts, state_locals, local_defs, V
 
 T = 'tokenization::'
@@ -34,11 +36,13 @@ def r1(ctx):
     b = ctx.body(T + 'BaseTokenizer::add_prefix_and_suffix')
     rv = ret_values(b)
     ok = len(rv) == 1
-    e = {}
-    ok = ok and match(core(rv[0][0]), Call('Iterator::collect', Call('Iterator::chain', Call('Iterator::chain', Cap('p'), Cap('body')), Cap('s'))), e)
-    ok = ok and match(e['p'], Call('prefix_token_ids', ('arg', 1, ANY))) and match(e['body'], ('arg', 2, ANY)) and match(e['s'], Call('suffix_token_ids', ('arg', 1, ANY)))
+    segs = seq_of(ctx.facts, b, rv[0][0]) if ok else None
+    want = (Call('prefix_token_ids', ('arg', 1, ANY)), ('arg', 2, ANY), Call('suffix_token_ids', ('arg', 1, ANY)))
+    ok = ok and segs is not None and len(segs) == 3 and all(s.kind == 'each' and not s.conds and core(s.elem) == ITEM and match(core(s.src), w)
+                                                            for s, w in zip(segs, want))
     ctx.require(ok, b, 'framing', 'ids = prefix ++ token_ids ++ suffix on every path',
-                'add_prefix_and_suffix returns %s (prefix and suffix must be added unconditionally, in this order)' % [show_in(b, v)[:200] for v, _ in rv])
+                'add_prefix_and_suffix builds %s (prefix and suffix must be added unconditionally, in this order, around the unchanged ids)' % (
+                    [repr(s)[:120] for s in segs] if segs is not None else [show_in(b, v)[:200] for v, _ in rv]))
     for nm, fld in (('prefix_token_ids', 'prefix_token_ids'), ('suffix_token_ids', 'suffix_token_ids')):
         acc = [x for x in ctx.facts.bodies if x.path.endswith('::' + nm) and x.impl_trait and x.impl_trait.endswith('BaseTokenize') and x.impl_self and 'BaseTokenizer<' in x.impl_self]
         if len(acc) != 1:
@@ -65,40 +69,48 @@ def r2(ctx):
     p = body_for(ctx, T + 'BaseTokenizer::process_input', BYTE)
     R.clear()
     R['tokens'] = _one(p, r'^std::vec::Vec<u32>$', 'id vector')
-    ext = [t for t in p.calls(r'Extend>::extend$|Vec::extend$') if match(core(sym(p, t.args[0])), _var('tokens'))]
-    ok = len(ext) == 1
-    if ok:
-        a = sym(p, ext[0].args[1])
-        src, steps = chain(a)
-        names = [s[0] for s in steps]
-        ok = names == ['as_bytes', 'iter', 'map'] or [n for n in names if n not in ('iter', 'as_bytes', 'map', 'copied', 'cloned')] == []
-        ok = ok and 'map' in names or names == ['as_bytes', 'iter', 'copied']
-        if 'map' in names:
-            clo = closure_of(ctx, [s for s in steps if s[0] == 'map'][0][2][0])
-            crv = ret_values(clo)
-            ok = ok and len(crv) == 1 and match(core(crv[0][0]), ('arg', 2, ANY)) and not narrowing_casts(clo)
-    ctx.require(ok, p, 'byte-to-id', 'text bytes become ids by value: s.as_bytes().iter().map(|b| *b as u32), nothing dropped', None)
+    ts = seq_of_var(ctx.facts, p, R['tokens'])
+    leaves = [l for s_ in (ts or ()) for l in s_.flat()]
+    reg = [l for l in leaves if any(pp and c[0] == 'is' and c[1] == ITEM and c[2] == ('Regular',) for c, pp in l.conds)]
+    ok = len(reg) == 1 and reg[0].kind == 'each' and core(reg[0].src) == ('field', ('variant', ITEM, 'Regular'), 0) and core(reg[0].elem) == ('item', 1) and \
+        len(reg[0].conds) == 1
+    ctx.require(ok, p, 'byte-to-id', 'text bytes become ids by value (every byte of the piece, nothing dropped, no arithmetic)',
+                'regular text is turned into ids by %s' % [repr(l)[:160] for l in reg])
     d = body_for(ctx, TOK + 'de_tokenize', BYTE)
-    pushes = [t for t in d.calls(r'Vec::push$')]
-    ok = len(pushes) == 1
-    if ok:
-        v = core(sym(d, pushes[0].args[1]))
-        at = [(core(tt), pol) for tt, pol, g in atoms_at(d, pushes[0].bb)]
-        lt = any(pol is True and match(tt, ('bin', 'Lt', Pred(lambda u: nosite(u) == nosite(v)), Const(256))) for tt, pol in at)
-        arith = [x for x in walk(v) if isinstance(x, tuple) and x and x[0] == 'bin']
-        ok = lt and not arith
-    ctx.require(ok, d, 'id-to-byte', 'de_tokenize pushes the id as a byte under the strict test id < 256', 'byte push: %s' % [show_in(d, sym(d, t.args[1])) for t in pushes])
-    ext = [t for t in d.calls(r'Vec::extend$|Extend>::extend$|extend_from_slice$')]
-    ok = len(ext) == 1 and has(core(sym(d, ext[0].args[1])), Call('Vocab::id_to_token', ('field', ('arg', 1, ANY), 'special_vocab'), ANY))
-    if ok:
-        at = [(core(tt), pol) for tt, pol, g in atoms_at(d, ext[0].bb)]
-        ok = any(pol is False and tt[0] == 'bin' and tt[1] == 'Lt' for tt, pol in at) and any(pol is False and match(tt, ('arg', 3, ANY)) for tt, pol in at)
-    ctx.require(ok, d, 'special-decode', 'ids >= 256 are decoded through the special vocabulary unless special tokens are ignored', None)
+    R['bytes'] = _one(d, r'^std::vec::Vec<u8>$', 'byte buffer')
+    bs = seq_of_var(ctx.facts, d, R['bytes'])
+    top = bs[0] if bs is not None and len(bs) == 1 and bs[0].kind == 'nest' else None
+    ctx.require(top is not None and match(core(top.src), ('arg', 2, ANY)) and not top.conds, d, 'id-order', 'ids are visited once each, in the given order',
+                'the byte buffer is built as %s' % [repr(x)[:160] for x in bs or ()])
+    u8try = [nosite(sym(d, t.dest)) for t in d.calls(r'try_from$') if d.local_ty(t.dest.local).startswith('std::result::Result<u8,')]
+
+    def fits(c, pol):
+        """does the condition say that the id fits in a byte (+1), does not fit (-1), or something else (None)"""
+        cc = core(c) if c[0] != 'is' else c
+        for op, k, sign in (('Lt', 256, 1), ('Le', 255, 1), ('Ge', 256, -1), ('Gt', 255, -1)):
+            if match(cc, ('bin', op, ITEM, Const(k))):
+                return sign if pol else -sign
+        if c[0] == 'is' and u8try and c[1][0] == 'call' and c[1][1].endswith('try_from') and core(c[1][2][0]) == ITEM and pol:
+            return {('Ok',): 1, ('Err',): -1}.get(c[2])
+        return None
+    istry = lambda c, pol: pol and c[0] == 'is' and c[2] == ('Continue',)
+    kinds = {}
+    for l in (top.inner if top is not None else ()):
+        f_ = [fits(c, pol) for c, pol in l.conds]
+        rest = [(c, pol) for c, pol in l.conds if fits(c, pol) is None and not istry(c, pol)]
+        if l.kind == 'one' and 1 in f_ and -1 not in f_ and not rest and core(l.elem) == ITEM:
+            kinds.setdefault('byte', []).append(l)
+        elif l.kind == 'each' and -1 in f_ and 1 not in f_ and core(l.elem) == ('item', 1) and \
+                has(core(l.src), Call('Vocab::id_to_token', ('field', ('arg', 1, ANY), 'special_vocab'), ITEM)) and \
+                len(rest) == 1 and rest[0][1] is False and match(core(rest[0][0]), ('arg', 3, ANY)):
+            kinds.setdefault('special', []).append(l)
+        else:
+            kinds.setdefault('other', []).append(l)
+    ctx.require(len(kinds.get('byte', [])) == 1 and not kinds.get('other'), d, 'id-to-byte', 'de_tokenize pushes the id itself as a byte exactly when id < 256 (strict)',
+                'byte pushes: %s; other writers: %s' % ([repr(l)[:120] for l in kinds.get('byte', [])], [repr(l)[:120] for l in kinds.get('other', [])]))
+    ctx.require(len(kinds.get('special', [])) == 1, d, 'special-decode', 'ids >= 256 are decoded through the special vocabulary unless special tokens are ignored', None)
     fu = list(d.calls(r'String::from_utf8$'))
     ctx.require(len(fu) == 1 and not list(d.calls(r'from_utf8_lossy$')), d, 'utf8', 'the bytes are converted with String::from_utf8 (error, not lossy)', None)
-    nx = [t for t in d.calls(r'::next$')]
-    ok = any(match(chain_names(loop_source(d, t))[0], ('arg', 2, ANY)) and not [n for n in chain_names(loop_source(d, t))[1] if n in ('rev', 'skip', 'filter', 'step_by', 'take')] for t in nx)
-    ctx.require(ok, d, 'id-order', 'ids are visited in the given order', None)
     it = body_for(ctx, TOK + 'id_to_token', BYTE)
     ok = any(match(core(g.atom()[0]), ('bin', 'Lt', ('arg', 2, ANY), Const(256))) for g in edge_guards(it))
     ctx.require(ok, it, 'id-to-token-boundary', 'id_to_token uses the same strict 256 boundary', None)
@@ -183,46 +195,41 @@ def r4(ctx):
     ctx.stats['bodies_inspected'].add(b.path)
     R.clear()
     R['tokens'] = _one(b, r'^std::vec::Vec<tokenization::VocabToken<', 'token vector')
-    writers = [t for t in b.terms('call') if t.args and t.args[0].place is not None and b.local_ty(t.args[0].place.local).startswith('&mut') and
-               match(core(sym(b, t.args[0])), _var('tokens'))]
-
-    def arm_of(blk):
-        for tt, names in variant_facts_at(b, blk):
-            if names in ({'Regular'}, {'Special'}):
-                return list(names)[0]
-        return None
+    segs = seq_of_var(ctx.facts, b, R['tokens'])
+    top = segs[0] if segs is not None and len(segs) == 1 else None
+    ok = top is not None and top.kind == 'nest' and match(core(top.src), ('arg', 2, ANY)) and not top.conds
+    ctx.require(ok, b, 'per-input', 'tokens are appended once per input piece, in order', 'token construction: %s' % [repr(x)[:200] for x in segs or ()])
     seen = {}
-    for t in writers:
-        name = (t.callee_res() or '').rsplit('::', 1)[-1]
-        arm = arm_of(t.bb)
-        a = sym(b, t.args[1]) if len(t.args) > 1 else None
+    isitem = lambda v: Pred(lambda u: core(u) == ('field', ('variant', ITEM, v), 0))
+    for s_ in (top.inner if ok else ()):
+        arm = [c[2] for c, p in s_.conds if p and c[0] == 'is' and c[1] == ITEM and len(c[2]) == 1]
+        other = [c for c, p in s_.conds if not (p and c[0] == 'is' and c[1] == ITEM)]
         kind = None
-        if name == 'extend' and arm == 'Regular':
-            src, steps = chain(a)
-            names = [s[0] for s in steps]
-            if names == ['new', 'chars', 'map'] and match(core(steps[0][3]), Call('CharString::new', ANY, ('field', ('field', ('arg', 1, ANY), 'config'), 'use_graphemes'))):
-                kind = 'regular'
-                clo = closure_of(ctx, steps[2][2][0])
-                toks = {}
-                for v, blk in ret_values(clo):
-                    cv = core(v)
-                    more = None
-                    for tt, pol, g in atoms_at(clo, blk):
-                        if match(core(tt), Call('Option::is_some', Call('::next', ANY))):
-                            more = pol
-                    if cv[0] == 'agg' and cv[2].endswith('VocabToken::Special'):
-                        toks['unk'] = (more, has(cv, ('field', ('field', ANY, 'state'), 0)))
-                    elif cv[0] == 'agg' and cv[2].endswith('VocabToken::Token'):
-                        toks['char'] = (more, has(cv, Call('::next', ANY)))
-                ctx.require(toks == {'unk': (True, True), 'char': (False, True)}, clo, 'char-token',
-                            'one token per Character: its single code point, or unk when a second code point exists', 'per-Character tokens: %s' % toks)
-        elif name == 'push' and arm == 'Special':
-            kind = 'special' if match(core(a), ('agg', 'adt', Pred(lambda n: n.endswith('VocabToken::Special')), (ANY,))) else None
+        if s_.kind == 'one' and arm == [('Special',)] and not other:
+            kind = 'special' if match(core(s_.elem), ('agg', 'adt', Pred(lambda n: n.endswith('VocabToken::Special')), (isitem('Special'),))) else None
+        elif s_.kind == 'each' and arm == [('Regular',)] and not other and match(core(s_.src), Call(
+                'CharString::chars', Call('CharString::new', isitem('Regular'), ('field', ('field', ('arg', 1, ANY), 'config'), 'use_graphemes')))):
+            kind = 'regular'
+            toks = {}
+            nxt = lambda u: match(u, Call('::next', ANY))
+            for a in value_alts(ctx.facts, b, s_.elem, expanded=True):
+                cv = core(a.value)
+                more = {'Some': True, 'None': False}.get(a.state_of(nxt))
+                if cv[0] == 'agg' and cv[2].endswith('VocabToken::Special'):
+                    toks['unk'] = (more, has(cv, ('field', ('field', ANY, 'state'), 0)))
+                elif cv[0] == 'agg' and cv[2].endswith('VocabToken::Token'):
+                    toks['char'] = (more, has(cv, Call('::next', ANY)))
+                else:
+                    toks['other'] = (None, False)
+            ctx.require(toks == {'unk': (True, True), 'char': (False, True)}, b, 'char-token',
+                        'one token per Character: its single code point, or unk when a second code point exists', 'per-Character tokens: %s' % toks,
+                        s_.term.span if s_.term else None)
         if kind is None:
-            ctx.fail(b, 'unpaired-token-writer|' + name, 'tokens.%s(%s) at line %d bypasses the per-Character mapping (e.g. an ASCII fast path '
-                     'iterating code points gives two tokens for the grapheme "\\r\\n")' % (name, show_in(b, a)[:80] if a else '', t.span['line']), t.span)
+            ctx.fail(b, 'unpaired-token-writer|' + s_.kind, 'tokens are also built by `%s` (line %d), which bypasses the per-Character mapping (e.g. an ASCII '
+                     'fast path iterating code points gives two tokens for the grapheme "\\r\\n")' % (repr(s_)[:120], s_.term.span['line'] if s_.term else 0),
+                     s_.term.span if s_.term else None)
             continue
-        seen.setdefault(kind, []).append(t)
+        seen.setdefault(kind, []).append(s_)
     for k in ('regular', 'special'):
         ctx.require(len(seen.get(k, [])) == 1, b, 'token-writer|' + k, 'exactly one `%s` token writer' % k, 'found %d' % len(seen.get(k, [])))
     # lookup fallback
@@ -230,16 +237,17 @@ def r4(ctx):
     if len(tk) != 1:
         raise AnchorMissing('VocabTokenizer::tokenize')
     t = tk[0]
-    mp = [c for c in closures_in(ctx, t, recursive=False)]
-    ok = False
-    for c in mp:
-        for v, blk in ret_values(c):
-            cv = core(v)
-            if match(cv, Call('unwrap_or_else', ANY, ANY)) or has(v, Call('Option::unwrap_or_else', ANY, ANY)):
-                dflt = [x for x in walk(v) if isinstance(x, tuple) and x and x[0] == 'call' and x[1].endswith('unwrap_or_else')][0][2][1]
-                dc = closure_of(ctx, dflt)
-                drv = ret_values(dc)
-                ok = len(drv) == 1 and match(core(drv[0][0]), Call('unk_token_id', ANY))
+    framed = [c for c in t.calls(r'add_prefix_and_suffix$')]
+    ok = len(framed) == 1
+    if ok:
+        segs = seq_of(ctx.facts, t, sym(t, framed[0].args[1]))
+        ok = segs is not None and len(segs) == 1 and segs[0].kind == 'each' and not segs[0].conds
+        if ok:
+            al = value_alts(ctx.facts, t, segs[0].elem, expanded=True)
+            unk = [a for a in al if match(core(a.value), Call('unk_token_id', ANY))]
+            rest = [a for a in al if a not in unk]
+            ok = bool(unk) and all(any(n == {'None'} for tt, n in a.variants) for a in unk) and bool(rest) and \
+                all(match(core(a.value), Call('token_to_id', ANY, ANY)) for a in rest)
     ctx.require(ok, t, 'unk-fallback', 'a token missing from the vocabulary maps to unk_token_id()', None)
     sp = [c for c in t.calls(r'split_input$')]
     pt = [c for c in t.calls(r'process_token_input$')]
